@@ -131,23 +131,36 @@ def _absorb_tail_into_if(fn, known):
     return 0
 
 
+def _source_order(fn):
+    """{id(node): index} in depth-first field order (line numbers are useless after inlining: spliced statements keep the helper's)"""
+    order = {}
+
+    def go(n):
+        order[id(n)] = len(order)
+        for ch in ast.iter_child_nodes(n):
+            go(ch)
+    go(fn)
+    return order
+
+
 def _eliminate_alias(fn, known):
     """`escaped = token` where `escaped` is a local the reference function does not have and `token` is never mentioned again after
     that statement: the alias is renamed back to `token` (the copy-a-parameter-into-a-fresh-name refactor)."""
-    stores = {}
+    nested_names = set()
     for n in ast.walk(fn):
         if isinstance(n, (ast.FunctionDef, ast.AsyncFunctionDef, ast.Lambda)) and n is not fn:
-            return 0
+            nested_names |= {x.id for x in ast.walk(n) if isinstance(x, ast.Name)}
     body_nodes = list(ast.walk(fn))
+    order = _source_order(fn)
     for st in body_nodes:
         if isinstance(st, ast.Assign) and len(st.targets) == 1 and isinstance(st.targets[0], ast.Name) and isinstance(st.value, ast.Name):
             t, y = st.targets[0].id, st.value.id
-            if t == y:
+            if t == y or t in nested_names or y in nested_names:
                 continue
             if t in known and y not in known:
                 # reverse alias `t = fresh` where `fresh` is a local the reference function does not have, is never mentioned after this
                 # statement, and `t` is not mentioned between the first mention of `fresh` and this statement: `fresh` *is* t
-                pos = lambda n: (n.lineno, n.col_offset)
+                pos = lambda n: order[id(n)]
                 ys = [n for n in body_nodes if isinstance(n, ast.Name) and n.id == y]
                 first_y = min(pos(n) for n in ys)
                 if any(pos(n) > pos(st.value) for n in ys):
@@ -167,10 +180,10 @@ def _eliminate_alias(fn, known):
             if t in known:
                 continue
             # first binding of t in source order, and y not mentioned anywhere after this statement
-            first = min((n.lineno, n.col_offset) for n in body_nodes if isinstance(n, ast.Name) and n.id == t)
-            if (st.targets[0].lineno, st.targets[0].col_offset) != first:
+            first = min(order[id(n)] for n in body_nodes if isinstance(n, ast.Name) and n.id == t)
+            if order[id(st.targets[0])] != first:
                 continue
-            after = [n for n in body_nodes if isinstance(n, ast.Name) and n.id == y and (n.lineno, n.col_offset) > (st.value.lineno, st.value.col_offset)]
+            after = [n for n in body_nodes if isinstance(n, ast.Name) and n.id == y and order[id(n)] > order[id(st.value)]]
             if after:
                 continue
             # the statement must not sit inside a loop (a second iteration would re-read y)
@@ -991,6 +1004,66 @@ def _simplify_trivia(fn):
     return k
 
 
+def _forward_flags(fn, known):
+    """a fresh boolean flag that is only ever assigned True/False constants and read once, as the whole test of `if flag: X = <const>`
+    (no else), where that `if` follows - in the same block - the statements that set the flag, nothing in between mentions X and none
+    of those statements can leave the block early by return/break/continue: every `flag = True` becomes `X = <const>`, the flag goes."""
+    import copy
+    order = _source_order(fn)
+    names = {}
+    for n in ast.walk(fn):
+        if isinstance(n, ast.Name):
+            names.setdefault(n.id, []).append(n)
+    for flag, occ in names.items():
+        if flag in known:
+            continue
+        loads = [n for n in occ if isinstance(n.ctx, ast.Load)]
+        if len(loads) != 1:
+            continue
+        sets = [st for st in ast.walk(fn) if isinstance(st, ast.Assign) and len(st.targets) == 1 and isinstance(st.targets[0], ast.Name) and st.targets[0].id == flag]
+        if len(sets) + 1 != len(occ) or not sets or not all(isinstance(st.value, ast.Constant) and isinstance(st.value.value, bool) for st in sets):
+            continue
+        for node in ast.walk(fn):
+            for b in _blocks_of(node):
+                for j, st in enumerate(b):
+                    if isinstance(st, ast.If) and st.test is loads[0] and not st.orelse and st.body and \
+                            all(isinstance(x, ast.Assign) and len(x.targets) == 1 and isinstance(x.targets[0], ast.Name) and isinstance(x.value, ast.Constant) for x in st.body):
+                        xs = {x.targets[0].id for x in st.body}
+                        first_set = min(order[id(s_)] for s_ in sets)
+                        # every flag assignment sits inside an earlier statement of this block
+                        earlier = b[:j]
+                        inside = {id(n) for e in earlier for n in ast.walk(e)}
+                        if not all(id(s_) in inside for s_ in sets):
+                            continue
+                        span = [e for e in earlier if any(order[id(n)] >= first_set for n in ast.walk(e))]
+                        if any(isinstance(n, (ast.Return, ast.Break, ast.Continue)) for e in span for n in ast.walk(e)):
+                            continue
+                        if any(isinstance(n, ast.Name) and n.id in xs and order[id(n)] > first_set for e in span for n in ast.walk(e)):
+                            continue
+                        # rewrite
+                        for n2 in ast.walk(fn):
+                            for b2 in _blocks_of(n2):
+                                i2 = 0
+                                while i2 < len(b2):
+                                    if b2[i2] in sets:
+                                        if b2[i2].value.value is True:
+                                            repl = [ast.copy_location(copy.deepcopy(x), b2[i2]) for x in st.body]
+                                            b2[i2:i2 + 1] = repl
+                                            i2 += len(repl)
+                                            continue
+                                        del b2[i2]
+                                        if not b2:
+                                            b2.append(ast.Pass())
+                                        continue
+                                    i2 += 1
+                        b.remove(st)
+                        if not b:
+                            b.append(ast.Pass())
+                        ast.fix_missing_locations(fn)
+                        return 1
+    return 0
+
+
 def _find_fn(m, qual):
     if "." in qual:
         cn, mn = qual.split(".", 1)
@@ -1136,6 +1209,7 @@ def canonicalise(repo):
             if ent:
                 rename_pass(modname, qual, fn, ent)
             k = _absorb_tail_into_if(fn, known) or _scalar_replace(fn, known, nt.get(modname, {})) or _eliminate_alias(fn, known) \
+                or _forward_flags(fn, known) \
                 or _inline_new_locals(fn, known - set(), limit=1)
             if k:
                 _simplify_trivia(fn)
